@@ -9,7 +9,7 @@ import networkx as nx
 from ..cfg import ENTRY, EXIT, RAISE, reaching_defs
 from ..common import calls_named, dotted, kw, loc, norm, stmt_of
 from ..model import AnalysisError, ClassInfo, FunctionInfo, own_nodes
-from .util import anchor_func, assigned_name, build_cfg, facts, switch_assumptions
+from .util import anchor_func, assigned_name, build_cfg, facts, is_zero_expr, switch_assumptions
 from . import opcontract
 
 COLLECT = "mygrad._utils.collect_all_tensors_and_clear_grads"
@@ -263,7 +263,7 @@ def r01_3_4(run):
         if isinstance(e, ast.Call) and (dotted(e.func) or "") in ("np.multiply", "numpy.multiply") and len(e.args) >= 2:
             return {norm(a) for a in e.args[:2]} == {g, "self.where"}
         if isinstance(e, ast.Call) and (dotted(e.func) or "") in ("np.where", "numpy.where") and len(e.args) == 3:
-            return norm(e.args[0]) == "self.where" and norm(e.args[1]) == g and norm(e.args[2]) in ("0", "0.0")
+            return norm(e.args[0]) == "self.where" and norm(e.args[1]) == g and is_zero_expr(e.args[2])
         return False
 
     masks = [n for n in own_nodes(fi.node) if isinstance(n, (ast.Assign, ast.AugAssign)) and "self.where" in norm(n)
